@@ -139,6 +139,8 @@ def replay_other(pid, art):
 
 
 PROPS = {}
+X_TRUST_EARLY = ["MIR -> path-enumerating interpreter lib/mirx.py and reference codec lib/codecx.py; OwningIovec abstracted as an append/backfill event log; every SMT query asked to z3 4.8.12 and cvc5 1.0"]
+X_ASSUME_EARLY = ["for the Engine X jobs: unwinding edges are not followed (a panic on a feasible path is itself a violation); slices are value lists"]
 
 
 def reg(p):
@@ -535,11 +537,12 @@ reg(Prop("C05", "exposed slices point into live memory",
          outside=IOV_OUTSIDE + ["StreamChunker chunks are covered by the C08 step harness's own pointer checks; Encoder/Decoder anchored input by the C07/C09 harnesses when those are run; StreamReader records by C06", IOV_NOT_DECIDED],
          assumptions=IOV_ASSUME))
 reg(Prop("C10", "arena memory reclaimed",
-         quick=[iov_job("k12_clear_releases_chunks"), iov_job("k11q_drop_restores_counters")],
-         thorough=[iov_job(n, 3000, 24) for n in ("k12_clear_releases_chunks", "k11q_drop_restores_counters")],
-         bounds_quick="2 skeletons that end in real drops and compare ByteArena::num_live_chunks/bytes with their starting values: clear + flush releases every chunk; two chunks, consume(k), drop (the first chunk is released as soon as its only slice is consumed)",
+         quick=[iov_job("k12_clear_releases_chunks"), iov_job("k11q_drop_restores_counters"), codecx.StreamRecords("quick", pid="C10"), codecx.EncoderVsReference("quick")],
+         thorough=[iov_job(n, 3000, 24) for n in ("k12_clear_releases_chunks", "k11q_drop_restores_counters")] + [codecx.StreamRecords("thorough", pid="C10"), codecx.EncoderVsReference("thorough")],
+         bounds_quick="streaming half (Engine X, event level): every feasible Encoder path keeps at most one placeholder pending with <= max_chunk+2 bytes behind it (what a draining consumer cannot take yet is bounded independently of the stream length: job encoder_vs_reference); StreamReader clears its record buffer at every call and stops buffering a record as soon as the judge skips it (job stream_reader_records, bounds as C06). Drop half (Kani): 2 skeletons that end in real drops and compare ByteArena::num_live_chunks/bytes with their starting values: clear + flush releases every chunk; two chunks, consume(k), drop (the first chunk is released as soon as its only slice is consumed)",
          bounds_thorough="same as quick",
-         outside=IOV_OUTSIDE + ["the bounded-footprint-while-streaming half of the property (needs long Encoder/Decoder/StreamReader histories, beyond what CBMC finished here)", IOV_NOT_DECIDED], assumptions=IOV_ASSUME))
+         outside=IOV_OUTSIDE + ["the streaming half is decided at the level of the event log only (bytes that must stay buffered), not as live arena bytes: how many arena chunks those bytes pin (slice merging, chunk sizes, anchors) is the real OwningIovec / ByteArena, of which only the two drop skeletons are decided", IOV_NOT_DECIDED],
+         assumptions=IOV_ASSUME + X_ASSUME_EARLY, trusted=X_TRUST_EARLY))
 reg(Prop("C20", "clone / take independence",
          quick=[iov_job("k6q_take_moves_pending_placeholder"), iov_job("k7q_clone_survives_drain_and_refill"), iov_job("k7b_clone_then_mutate_clone")],
          thorough=[iov_job(n, 3000, 24) for n in ("k6q_take_moves_pending_placeholder", "k7q_clone_survives_drain_and_refill", "k7b_clone_then_mutate_clone")],
